@@ -81,9 +81,24 @@ def gen_integral(repo, res):
                 key = f"{g.key}:{label}:{scalar}"
                 res.ob(key)
                 props = ("C06", "C05", "C18") if be == "C" else ("C18",)
-                ir = Node("IntegralIR", enabled_coefficients=list(s["enabled"]),
-                          expression=Node("CommonExpressionIR", integral_type="cell", name=s["name"], needs_facet_permutations=s["perm"],
-                                          coordinate_element_hash=s["hash"]))
+                # the rest of the IR, as far as a generator may consult it: coefficient i is evaluated through a table of type varying (i = 0),
+                # not at all (disabled ones) or through a `ones` table (a piecewise-constant coefficient, read directly as w[offset]) for the last
+                coefs = [Node("Coefficient", name=f"w{i}") for i in range(len(s["enabled"]))]
+                fnodes = {}
+                for i, (c_, en) in enumerate(zip(coefs, s["enabled"])):
+                    if en:
+                        tt = "ones" if (i == len(coefs) - 1 and len(coefs) > 1) else "varying"
+                        fnodes[len(fnodes)] = {"expression": c_, "status": "piecewise" if tt == "ones" else "varying", "mt": Node("ModifiedTerminal", terminal=c_, restriction=None),
+                                               "tr": Node("UniqueTableReferenceT", name=f"FE{i}", ttype=tt, is_permuted=False)}
+                fnodes[len(fnodes)] = {"expression": Node("Sum"), "status": "varying"}
+                graph = Node("ExpressionGraph", nodes=fnodes, out_edges={k: [] for k in fnodes}, in_edges={k: [] for k in fnodes})
+                rule_ = Node("QuadratureRule", id=_PyCall(lambda: "r0"))
+                ir = Node("IntegralIR", enabled_coefficients=list(s["enabled"]), part="TensorPart.full", rank=2,
+                          expression=Node("CommonExpressionIR", integral_type="cell", entity_type="cell", name=s["name"], needs_facet_permutations=s["perm"],
+                                          coordinate_element_hash=s["hash"], coefficient_numbering={c_: i for i, c_ in enumerate(coefs)},
+                                          coefficient_offsets={c_: 3 * i for i, c_ in enumerate(coefs)}, original_constant_offsets={}, tensor_shape=[3, 3],
+                                          integrand={(s["cell"], rule_): {"factorization": graph, "modified_arguments": [], "block_contributions": {}}},
+                                          unique_tables={}, unique_table_types={}, number_coordinate_dofs=3))
                 it = _interp(repo, modname, scalar)
                 try:
                     out = it.call_f(g, [ir, s["cell"], {"scalar_type": scalar}])
